@@ -38,6 +38,7 @@ type FuncContract struct {
 	Results   []Param
 	Requires  []Clause
 	Ensures   []Clause
+	Defines   []Clause // definitional postconditions: assumed at call sites, not checked against the body (listed as assumptions)
 	Modifies  []Clause // expressions p.f / p.f[*]; a single "*" identifier = everything
 	ModAll    bool
 	Decreases *Clause
@@ -135,7 +136,7 @@ type srcLine struct {
 
 var blockKw = map[string]bool{"func": true, "spec": true, "predicate": true, "axiom": true, "lemma": true,
 	"ghostfield": true, "functype": true, "interface": true, "guard": true, "const": true, "extern": true, "package": true}
-var clauseKw = map[string]bool{"requires": true, "ensures": true, "modifies": true, "decreases": true, "loop": true,
+var clauseKw = map[string]bool{"requires": true, "ensures": true, "defines": true, "modifies": true, "decreases": true, "loop": true,
 	"uses": true, "trusted": true, "pure": true, "inline": true, "nopanic": true, "maypanic": true, "induction": true,
 	"refines": true, "implements": true, "props": true, "trigger": true, "read": true, "write": true}
 
@@ -378,6 +379,15 @@ func (c *Contracts) parseLines(lines []srcLine, scope string) error {
 			default:
 				return fmt.Errorf("%s:%d: %s outside func/lemma", s.file, s.line, s.kw)
 			}
+		case "defines":
+			if curF == nil {
+				return fmt.Errorf("%s:%d: defines outside func", s.file, s.line)
+			}
+			e, err := mk(s, s.rest)
+			if err != nil {
+				return err
+			}
+			curF.Defines = append(curF.Defines, e)
 		case "modifies":
 			if curF == nil {
 				return fmt.Errorf("%s:%d: modifies outside func", s.file, s.line)
